@@ -44,12 +44,26 @@ CT = {
     "defprot+copyprot": "protected: {K}(); {K}(const {K} &o);",
     "def+move": "public: {K}(); {K}({K} &&o);",
     "int+copydel": "public: {K}(int a); {K}(const {K} &o) = delete;",
+    # two copy/move constructor forms, in both declaration orders
+    "nc+copy": "public: {K}({K} &o); {K}(const {K} &o);",
+    "copy+nc": "public: {K}(const {K} &o); {K}({K} &o);",
+    "copy+move": "public: {K}(const {K} &o); {K}({K} &&o);",
+    "move+copy": "public: {K}({K} &&o); {K}(const {K} &o);",
+    "nc+copydel": "public: {K}({K} &o); {K}(const {K} &o) = delete;",
+    "copydel+nc": "public: {K}(const {K} &o) = delete; {K}({K} &o);",
+    "nc+copypriv": "public: {K}({K} &o); private: {K}(const {K} &o);",
+    "tmpl+copy": "public: template<class U> {K}(U u); {K}(const {K} &o);",
+    "copy+tmpl": "public: {K}(const {K} &o); template<class U> {K}(U u);",
 }
+COPY_SETS = ("nc+copy", "copy+nc", "copy+move", "move+copy", "nc+copydel", "copydel+nc",
+             "nc+copypriv", "tmpl+copy", "copy+tmpl")
 CT_ORDER = list(CT)
 # which symbols declare a constructor at all / a copy constructor (in the C++ sense)
 CT_DECLARES_CTOR = {k for k in CT if k not in ("none", "moveas")}
 CT_DECLARES_COPY = {"copy", "copyprot", "copypriv", "copydel", "copydflt", "copyx", "copync",
-                    "def+copy", "dflt+dflt", "def+copydel", "defprot+copyprot", "int+copydel"}
+                    "def+copy", "dflt+dflt", "def+copydel", "defprot+copyprot", "int+copydel",
+                    "nc+copy", "copy+nc", "copy+move", "move+copy", "nc+copydel", "copydel+nc",
+                    "nc+copypriv", "tmpl+copy", "copy+tmpl"}
 
 DT = {
     "none": "",
